@@ -695,7 +695,7 @@ func execConnect(in val.V) val.V {
 
 // ---- generator -------------------------------------------------------------------------------
 
-var connIDs = []string{"", "1", "2", "a", "xyz", "a\x00b", "7 8", "\xc3\xa9", "e\x1bsc", "\x01", "d\x7f", "t\tab", "\x1f\x7f", " lead", "trail "}
+var connIDs = []string{"", "1", "2", "a", "xyz", "a\x00b", "7 8", "\xc3\xa9", "e\x1bsc", "\x01", "d\x7f", "t\tab", "\x1f\x7f", " lead", "trail ", "caf\xe9", "\xff\xfe\x80k", "cut\xe2\x82", "\xc0\xaf"}
 
 func connLine(r *rng.R, maxRetryMs int, bigRetry bool) string {
 	switch r.Intn(16) {
